@@ -80,7 +80,11 @@ def runOps (c : Cfg) (B : Bank GInt) (x : List GInt) :
     | 'F' =>
       if body ≠ "" then none else
       let r := full c B st dt x
-      let st' := match r with | .ok (s, _) => s | .error _ => st
+      -- after an exception inside `finalize` the computer keeps the state `compute_chunk` left
+      let st' := match r with
+        | .ok (s, _) => s
+        | .error _ => if st.started then st else
+            match chunk c B st dt x with | .ok (s1, _) => s1 | .error _ => st
       let tl ← runOps c B x st' dt off rest
       some (showRes r :: tl)
     | 'P' =>
